@@ -214,6 +214,7 @@ def run(ctx):
         "translator target c12globals (round 4, thread-local tables): every `static` inside a `thread_local!` under src/ (hooks / tests skipped) by NAME; per function that names it, operations by METHOD NAME inside "
         "`NAME.with*(…)` (lookup / insert lists as above; `.get()` / `.take()` / `.set()` / `.replace()` on the key itself), anything else is `.other` (fails the decision); sharedAfterLookup = an acquisition "
         "(`.lock()` / `.read()` / `.write()`) of a lock-shaped static of the crate occurs textually after the first lookup in the same function — a fall-through in a helper function is outside the scan and fails the decision; "
+        "threadIdUses = syn paths ending in `thread::current` / `ThreadId` and `use` items naming them (a renamed import `use std::thread as t; t::current()` is outside the scan); "
         "CacheCoherent (a thread's table holds only copies of shared entries) is the hypothesis of pure_cache_thread_independent, not extracted",
         "modelled, not verified: data races inside machine code are exercised by the stress run only "
         "(thorough tier repeats the stress cases in a ThreadSanitizer build, which instruments the Rust side but not the JIT-generated code)",
